@@ -29,6 +29,7 @@
 #include <fcntl.h>
 #include <poll.h>
 #include <sys/stat.h>
+#include <sys/time.h>
 #include <sys/types.h>
 #include <sys/wait.h>
 #include <unistd.h>
@@ -198,5 +199,9 @@ struct Engine {
 };
 
 int Main(int argc, char** argv, Engine& e);
+
+// Engines may keep a short static tag describing the current state class; it is reported when the per-run watchdog fires
+// ("timeout:<tag>"), so that a known slow state class can be told from any other hang.
+inline const char*& TimeoutTag() { static const char* t = ""; return t; }
 
 } // namespace sim
